@@ -176,8 +176,8 @@ class Program:
         for m in self.modules.values():
             self._index_module(m)
         for c in self.classes.values():
-            c.base_qnames = [self.resolve_expr(c.module, b)
-                             for b in c.node.bases]
+            c.base_qnames = [self.resolve_expr(c.module, b) or
+                             dotted(b) or '?' for b in c.node.bases]
 
     @classmethod
     def load(cls, root='/repo'):
